@@ -275,6 +275,28 @@ class ExampleSDE:
             torch.roll(y, 1, dims=1)).unsqueeze(-1) + 0.0625 * t
 
 
+class SwitchSDE(ExampleSDE):
+    """ExampleSDE whose vector fields change STRUCTURE with time (Python control flow on t): before t_switch the diffusion
+    is a constant that has no dependence on (and no autograd path to) the state - a burn-in phase -, afterwards it is the
+    state-dependent diffusion of ExampleSDE; the drift gains a term.  One-shot and restarted solves see the switch at
+    different distances from their own start."""
+
+    def __init__(self, noise_type, sde_type, t_switch, d=3, m=2):
+        super().__init__(noise_type, sde_type, d=d, m=m)
+        self.t_switch = float(t_switch)
+
+    def f(self, t, y):
+        out = super().f(t, y)
+        return out if float(t) < self.t_switch else out + 0.0625 * torch.cos(y)
+
+    def g(self, t, y):
+        if float(t) >= self.t_switch:
+            return super().g(t, y)
+        shape = {"diagonal": (y.size(0), self.d), "scalar": (y.size(0), self.d, 1)}.get(self.noise_type,
+                                                                                        (y.size(0), self.d, self.m))
+        return torch.full(shape, 0.3125, dtype=y.dtype)
+
+
 class LinearSDE:
     """dy = -lam y dt + sig dW (additive) or dy = -lam y dt + sig y dW (diagonal), Ito or Stratonovich.
     lam large = stiff.  Closed form (diagonal, Ito):  y0 exp((-lam - sig^2/2) t + sig W_t)."""
@@ -983,6 +1005,11 @@ def c13_group(job):
     c, seed = job["c"], job["seed"]
     tm = TickMap(job["t0"], job["j"])
     p = Problem(c, seed)
+    switch = job.get("switch", job["gi"] % 3 == 1)
+    if switch:
+        # every third group: vector fields that change structure two ticks into the run (state-independent diffusion
+        # during a burn-in, state-dependent afterwards)
+        p = Problem(c, seed, sde=SwitchSDE(c["noise"], c["sde_type"], tm.t(2)))
     base_key = dict(label=c["label"], noise=c["noise"], dtype=c["dtype"], ts_kind=c["ts_kind"])
     fails, keys = [], []
     sens = [0, 0]
@@ -990,7 +1017,7 @@ def c13_group(job):
     def fail(check, msg, beh, same_obj):
         fails.append((dict(base_key, check=check), msg,
                       dict(config=c, seed=seed, d=beh["d"], T=beh["T"], t0=job["t0"], j=job["j"], ts=beh["ts"],
-                           rs=beh["rs"], same_brownian_object=same_obj)))
+                           rs=beh["rs"], same_brownian_object=same_obj, switch=switch)))
 
     for n, beh in enumerate(job["behs"]):
         if len(fails) >= 8:
@@ -1406,7 +1433,8 @@ def replay_file(path):
                             workers=2)
         behs = [b for b in res.printed if isinstance(b, dict) and b["ts"] == rp["ts"] and b["rs"] == rp["rs"]]
         for gi in (0, 1):      # both Brownian-object variants
-            fails += c13_group(dict(c=rp["config"], seed=rp["seed"], gi=gi, t0=rp["t0"], j=rp["j"], behs=behs[:1]))["fails"]
+            fails += c13_group(dict(c=rp["config"], seed=rp["seed"], gi=gi, t0=rp["t0"], j=rp["j"], behs=behs[:1],
+                                    switch=bool(rp.get("switch", False))))["fails"]
     elif pid == "C14" and "sched" in rp:
         res = run_loop_spec(ctx, "replay", invariants=ADAPT_INVS, Mode="adaptive", TEnds={rp["ts"][-1]}, MaxInterior=1,
                             Dts={rp["d"]}, DtMins={rp["mn"]}, StepVals={0, 2, 4, 8}, MaxTrials=6, KeepHist=True, Emit=True,
